@@ -220,20 +220,26 @@ def sl(lo, hi):
 
 
 def r_pstatic(ctx, model):
-    ev, calc, cap, ks = setup(ctx, model)
     ref = f"{CALC}._calculate_pressure_static"
     f = model.func(ref)
-    ev.call_def(f, model.mods["cij.core.calculator"], ref, [calc], {})
-    got = calc.attrs.get("static_p_array")
-    if got is None:
-        raise AnalysisError("_calculate_pressure_static does not set static_p_array")
-    xs = strain_of(ev, at0(VOLS), VOLS)
-    xg = strain_of(ev, at0(VOLS), V)
-    fit = linear("FIT", [xs, ENER, xg, sp.Integer(3)], 1)
-    want = -linear("GRAD", [fit], 0) / linear("GRAD", [V], 0) / AU
-    ctx.check(is_zero(as_sym(got) - want), "static pressure = -grad(cubic fit of input energies)/grad(V)", model.where(ref, f), expected=short(want, 300),
-              found=short(got, 300), explanation="static pressure is not minus the volume derivative of the finite-strain fit of the input "
-                                                 "static energies (sign, fitted data, shared reference volume, order 3)", key="static_p")
+    # the static curve is the cubic finite-strain fit whatever the configuration says about the QHA fit (qha.settings.order is
+    # the order of the free-energy fit, a different quantity): folded under four configurations
+    for label, order in (("qha order not configured", None), ("qha order 3", 3), ("qha order 4", 4), ("qha order 5", 5)):
+        ev, calc, cap, ks = setup(ctx, model)
+        settings = DictV({} if order is None else {"order": sp.Integer(order)})
+        calc.attrs["config"] = DictV({"qha": DictV({"settings": settings, "input": "input01"}), "elast": DictV({"settings": DictV({}), "input": "input02"})})
+        ev.call_def(f, model.mods["cij.core.calculator"], ref, [calc], {})
+        got = calc.attrs.get("static_p_array")
+        if got is None:
+            raise AnalysisError("_calculate_pressure_static does not set static_p_array")
+        xs = strain_of(ev, at0(VOLS), VOLS)
+        xg = strain_of(ev, at0(VOLS), V)
+        fit = linear("FIT", [xs, ENER, xg, sp.Integer(3)], 1)
+        want = -linear("GRAD", [fit], 0) / linear("GRAD", [V], 0) / AU
+        ctx.check(is_zero(as_sym(got) - want), f"static pressure = -grad(cubic fit of input energies)/grad(V) ({label})", model.where(ref, f), expected=short(want, 300),
+                  found=short(got, 300), explanation="static pressure is not minus the volume derivative of the finite-strain fit of the input "
+                                                     f"static energies (sign, fitted data, shared reference volume, order 3) when the configuration has {label}",
+                  key=f"static_p.{label}")
     fd = lib_func("qha/fitting.py", "polynomial_least_square_fitting")
     ctx.libfact(f"installed polynomial_least_square_fitting returns arity {sorted(return_arity(fd))}")
 
